@@ -205,7 +205,7 @@ fn blob_rt<const L: usize>() {
 vk_h!(c01_blob_len0, 12, {
     blob_rt::<0>();
 });
-// VK: prop=C01 tier=quick cap=600
+// VK: prop=C01 tier=thorough cap=1200
 // VK-funcs: as c01_blob_len0
 // VK-bounds: every blob of 3 bytes
 vk_h!(c01_blob_len3, 12, {
@@ -323,6 +323,7 @@ vk_h!(c01_maybe_empty_int, 12, {
 
 // ------------------------------------------------------------------------------------------------
 // collections, vectors, maps, tuples, nesting: concrete shapes, symbolic element values.
+// Harnesses marked tier=off did not finish in CBMC within 30 min / 24 GB (kept for reference, not part of any claim).
 // Split form: (a) ser(value) == spec bytes, (b) de(spec bytes) == value, as separate obligations; decoding goes through the
 // lazy iterator carriers (Vec<T>'s `collect` machinery does not get through CBMC's symbolic execution).
 use scylla_cql_core::deserialize::value::{ListlikeIterator, MapIterator, VectorIterator};
@@ -374,7 +375,7 @@ fn expect_str(x: Option<Result<&str, scylla_cql_core::deserialize::Deserializati
 fn list2_payload(xs: &[i32; 2]) -> Vec<u8> {
     cat(&[&spec_i32(2), &int_cell(xs[0]), &int_cell(xs[1])])
 }
-// VK: prop=C01 tier=quick cap=900
+// VK: prop=C01 tier=thorough cap=1800
 // VK-funcs: Vec<i32>/[i32] SerializeValue (serialize_sequence, CellValueBuilder length back-patch)
 // VK-bounds: list<int> and set<int> with 2 elements, any i32 values
 vk_h!(c01_list_int_n2_ser, 40, {
@@ -417,7 +418,7 @@ vk_h!(c01_list_int_n0, 20, {
     kani::cover!(true, "reach_end");
 });
 
-// VK: prop=C01 tier=quick cap=900
+// VK: prop=C01 tier=off cap=900
 // VK-funcs: Vec<i32> SerializeValue (serialize_vector: fixed-width elements without length prefix); VectorIterator<i32> DeserializeValue
 // VK-bounds: vector<int,2>, any i32 values
 vk_h!(c01_vector_int_d2, 40, {
@@ -467,11 +468,11 @@ vk_h!(c01_vector_text_l1_l2_ser, 40, { vector_text_ser::<1, 2>() });
 // VK-funcs: as c01_vector_text_l1_l2_ser
 // VK-bounds: vector<text,2> whose last element is the empty string
 vk_h!(c01_vector_text_l1_l0_ser, 40, { vector_text_ser::<1, 0>() });
-// VK: prop=C01 tier=thorough cap=1800
+// VK: prop=C01 tier=off cap=1800
 // VK-funcs: VectorIterator<&str> DeserializeValue (unsigned_vint_decode, FrameSlice::read_n_bytes)
 // VK-bounds: the encoding of vector<text,2> with elements of 1 and 1 ASCII bytes
 vk_h!(c01_vector_text_l1_l1_de, 40, { vector_text_de::<1, 1>() });
-// VK: prop=C01 tier=thorough cap=1800
+// VK: prop=C01 tier=off cap=1800
 // VK-funcs: as c01_vector_text_l1_l1_de
 // VK-bounds: the encoding of vector<text,2> whose LAST element is the empty string (zero-length element at the end of the cell)
 vk_h!(c01_vector_text_l1_l0_de, 40, { vector_text_de::<1, 0>() });
@@ -497,7 +498,7 @@ fn vector_blob_len_ser<const L: usize>() {
     std::mem::forget((typ, v));
     kani::cover!(true, "reach_end");
 }
-// VK: prop=C01 tier=quick cap=900
+// VK: prop=C01 tier=thorough cap=1800
 // VK-funcs: serialize_next_variable_length_elem, unsigned_vint_encode through Vec<Vec<u8>> on vector<blob,1>
 // VK-bounds: element byte length 127 (largest 1-byte vint), content = one symbolic byte repeated; unwind 135
 vk_h!(c01_vector_blob_len127_ser, 135, { vector_blob_len_ser::<127>() });
@@ -547,7 +548,7 @@ vk_h!(c01_tuple_int_text_ser, 40, {
     std::mem::forget((t2, t3, val));
     kani::cover!(true, "reach_end");
 });
-// VK: prop=C01 tier=quick cap=900
+// VK: prop=C01 tier=thorough cap=1800
 // VK-funcs: (i32, &str, Option<i32>) DeserializeValue on tuple<int,text,int>
 // VK-bounds: bytes of a tuple that carries only its first two fields: the missing field reads back as null
 vk_h!(c01_tuple_short_de_padded_with_null, 40, {
@@ -561,7 +562,7 @@ vk_h!(c01_tuple_short_de_padded_with_null, 40, {
     kani::cover!(true, "reach_end");
 });
 
-// VK: prop=C01 tier=thorough cap=1800
+// VK: prop=C01 tier=off cap=1800
 // VK-funcs: CqlValue::Tuple SerializeValue (serialize_cql_value, serialize_tuple_like)
 // VK-bounds: CqlValue::Tuple [Some(Int x), None] and the short [Some(Int x)] against tuple<int,int>
 vk_h!(c01_cqlvalue_tuple_ser, 40, {
@@ -593,7 +594,7 @@ vk_h!(c01_nested_list_of_tuple, 40, {
     kani::cover!(true, "reach_end");
 });
 
-// VK: prop=C01 tier=thorough cap=1800
+// VK: prop=C01 tier=off cap=1800
 // VK-funcs: BTreeMap<i32, Vec<i32>> SerializeValue (map<int, list<int>>)
 // VK-bounds: 1 entry whose value is a 1-element list
 vk_h!(c01_nested_map_of_list_ser, 48, {
@@ -609,7 +610,7 @@ vk_h!(c01_nested_map_of_list_ser, 48, {
     kani::cover!(true, "reach_end");
 });
 
-// VK: prop=C01 tier=thorough cap=1800
+// VK: prop=C01 tier=off cap=1800
 // VK-funcs: Vec<Vec<i32>> SerializeValue (vector<vector<int,2>,2>: fixed-width nested vectors)
 // VK-bounds: 2x2 any i32
 vk_h!(c01_nested_vector_of_vector_ser, 40, {
@@ -621,3 +622,39 @@ vk_h!(c01_nested_vector_of_vector_ser, 40, {
     std::mem::forget((typ, v));
     kani::cover!(true, "reach_end");
 });
+
+fn expect_blob(x: Option<Result<&[u8], scylla_cql_core::deserialize::DeserializationError>>, want: &[u8]) {
+    match x {
+        Some(Ok(s)) => assert!(same(s, want), "decoded blob element differs"),
+        Some(Err(e)) => {
+            std::mem::forget(e);
+            assert!(false, "decoding a vector element failed although the bytes are the encoding of a valid vector")
+        }
+        None => assert!(false, "decoded vector is too short"),
+    }
+}
+fn vector_blob_de<const L0: usize, const L1: usize>() {
+    let a0: [u8; L0] = kani::any();
+    let a1: [u8; L1] = kani::any();
+    let typ = t_vector(ColumnType::Native(NativeType::Blob), 2);
+    // vint length (1 byte below 128) + bytes, twice: the CQL encoding of vector<blob,2> [a0, a1]
+    let b = Bytes::copy_from_slice(&cat(&[&[L0 as u8], &a0, &[L1 as u8], &a1]));
+    let mut it: VectorIterator<&[u8]> = de(&typ, Some(&b));
+    expect_blob(it.next(), &a0);
+    expect_blob(it.next(), &a1);
+    assert!(it.next().is_none());
+    std::mem::forget(typ);
+    kani::cover!(true, "reach_end");
+}
+// VK: prop=C01 tier=quick cap=900
+// VK-funcs: VectorIterator<&[u8]>::{deserialize,next,next_variable_length_elem}, unsigned_vint_decode, FrameSlice::read_n_bytes
+// VK-bounds: the encoding of vector<blob,2> with elements of 1 and 1 bytes (symbolic content)
+vk_h!(c01_vector_blob_l1_l1_de, 20, { vector_blob_de::<1, 1>() });
+// VK: prop=C01 tier=quick cap=900
+// VK-funcs: as c01_vector_blob_l1_l1_de
+// VK-bounds: the encoding of vector<blob,2> whose LAST element is zero-length (an empty value at the very end of the cell)
+vk_h!(c01_vector_blob_l1_l0_de, 20, { vector_blob_de::<1, 0>() });
+// VK: prop=C01 tier=quick cap=900
+// VK-funcs: as c01_vector_blob_l1_l1_de
+// VK-bounds: the encoding of vector<blob,2> whose FIRST element is zero-length
+vk_h!(c01_vector_blob_l0_l1_de, 20, { vector_blob_de::<0, 1>() });
